@@ -119,7 +119,33 @@ func weighted(t *rapid.T, label string, weights ...int) int {
 	return len(weights) - 1
 }
 
+// family: per-plan base of related secrets (see World A): accounts whose keys
+// share a prefix, a length, or differ in one byte.
+var family []byte
+
 func genSecret(t *rapid.T) []byte {
+	if len(family) > 0 && weighted(t, "related?", 2, 1) == 1 {
+		b := append([]byte(nil), family...)
+		n := len(b)
+		switch rapid.IntRange(0, 5).Draw(t, "relKind") {
+		case 0:
+		case 1:
+			b[n-1] ^= 0x01
+		case 2:
+			i := rapid.SampledFrom([]int{0, 19, 31, 63, 64, 65}).Draw(t, "relPos")
+			if i >= n {
+				i = n - 1
+			}
+			b[i] ^= 0x55
+		case 3:
+			b = append(b, rapid.Byte().Draw(t, "relExtra"))
+		case 4:
+			b = b[:n-1]
+		default:
+			b[n/2] ^= 0x80
+		}
+		return b
+	}
 	switch weighted(t, "secretClass", 6, 1, 1, 1, 1) {
 	case 0:
 		return rapid.SliceOfN(rapid.Byte(), 10, 32).Draw(t, "secret")
@@ -552,6 +578,8 @@ func genArbitrary(t *rapid.T) string {
 // GenPlan draws a whole plan for the given property.
 func GenPlan(t *rapid.T, prop string) *Plan {
 	p := &Plan{Prop: prop}
+	fn := rapid.SampledFrom([]int{10, 20, 32, 64, 65, 80, 128, 200}).Draw(t, "familyLen")
+	family = rapid.SliceOfN(rapid.Byte(), fn, fn).Draw(t, "family")
 	p.BaseSec, p.BaseNsec = genBase(t)
 	na := rapid.IntRange(1, 4).Draw(t, "nAccounts")
 	for i := 0; i < na; i++ {
